@@ -13,11 +13,14 @@ func init() {
 				Quick: map[string]int{"maxseg": 4}, Thorough: map[string]int{"maxseg": 5},
 				Reach:     []string{"path rejected", "upload injected"},
 				Functions: []string{"requests.(*ParseRequestResponse).injectFile"}},
+			{Name: "handler-corners", Pkg: ".", Files: []string{"root/fed.go", "root/c01.go", "root/c16.go", "root/c07k3.go"}, Entry: "VerifHandlerCorners", Mode: "seq",
+				Reach:     []string{"corner operation answered"},
+				Functions: []string{"(*Gateway).Handler", "(*Gateway).queryHandler", "(*Gateway).parseIntrospectionQuery", "introspection.(*IntrospectionResolver).*", "planner.SequentialPlanner.Plan", "planner.sanitizeSelectionSet", "executor.ParallelExecutor.Execute"}},
 		},
 		Assume: []string{
 			"encoding/json replaced by the abstract codec; concrete bodies are parsed by the real encoding/json into a tree first, typed decoding follows go/types struct tags",
 			"path segments are structured tokens: decimal numeral of symbolic value in [-2,3], the word variables, existing / missing keys, the empty string",
 		},
-		Outside: []string{"arbitrary byte strings (bodies are renderings of JSON shapes with optional garbage prefix)", "mime/multipart parsing", "socket-level behaviour"},
+		Outside: []string{"handler-corners: 15 unusual but valid operations (root __typename, node without fragment, unknown id, introspection with null / absent / mistyped includeDeprecated, fragments on Node, input objects with empty and null lists) on the interface/union/enum/input scenario schema", "arbitrary byte strings (bodies are renderings of JSON shapes with optional garbage prefix)", "mime/multipart parsing", "socket-level behaviour"},
 	})
 }
